@@ -16,6 +16,8 @@ package main
 //	session_loop_ends_with_reader       internal/session/session.go (*Session).serve: `case res, ok := <-cmdCh` with
 //	                                    `if !ok { return ... }`
 //	session_done_closes_conn            (*Session).done calls s.conn.Close()
+//	idle_writer_drains_until_closed     internal/session/handle_idle.go: no return/break in the `for res := range resCh` loop of
+//	                                    handleIdle; sendResponsesInBulks returns only when the channel is closed
 //	remove_state_cannot_abort_early     internal/backend/user.go (*user).removeState has no return statement before the
 //	                                    state is taken out of user.states (followed by `defer user.statesWG.Done()`)
 
@@ -191,6 +193,68 @@ func factsServe(t *T) (string, error) {
 			}
 		}
 	}
+	// 6. the goroutine that writes the IDLE responses keeps taking them until state.idleCh is closed (endIdle): whoever
+	//    pushes a response (State.ApplyUpdate, inside a database transaction) would block for ever otherwise.
+	//    handle_idle.go handleIdle: the `for res := range resCh` loop has no return / break / goto in its body;
+	//    sendResponsesInBulks: every return sits under `if !ok` of the receive from resCh.
+	idleDrains := false
+	if hf, err := t.ParseFile("internal/session/handle_idle.go"); err == nil {
+		idleText := func(n ast.Node) string {
+			return strings.ReplaceAll(t.Src("internal/session/handle_idle.go", n), " ", "")
+		}
+		rangeOK, rangeFound := true, false
+		if hi := FuncDecl(hf, "Session", "handleIdle"); hi != nil {
+			ast.Inspect(hi.Body, func(n ast.Node) bool {
+				rs, ok := n.(*ast.RangeStmt)
+				if !ok || idleText(rs.X) != "resCh" {
+					return true
+				}
+				rangeFound = true
+				ast.Inspect(rs.Body, func(m ast.Node) bool {
+					switch v := m.(type) {
+					case *ast.FuncLit:
+						return false
+					case *ast.ReturnStmt:
+						rangeOK = false
+					case *ast.BranchStmt:
+						if v.Tok == token.BREAK || v.Tok == token.GOTO {
+							rangeOK = false
+						}
+					}
+					return true
+				})
+				return false
+			})
+		}
+		bulkOK, bulkFound := true, false
+		if sb := FuncDecl(hf, "", "sendResponsesInBulks"); sb != nil {
+			bulkFound = true
+			var walk func(n ast.Node, underNotOK bool)
+			walk = func(n ast.Node, underNotOK bool) {
+				ast.Inspect(n, func(m ast.Node) bool {
+					switch v := m.(type) {
+					case *ast.FuncLit:
+						return false
+					case *ast.IfStmt:
+						if m != n {
+							walk(v.Body, underNotOK || idleText(v.Cond) == "!ok")
+							if v.Else != nil {
+								walk(v.Else, underNotOK)
+							}
+							return false
+						}
+					case *ast.ReturnStmt:
+						if !underNotOK {
+							bulkOK = false
+						}
+					}
+					return true
+				})
+			}
+			walk(sb.Body, false)
+		}
+		idleDrains = rangeFound && rangeOK && bulkFound && bulkOK
+	}
 	b := func(v bool) string {
 		if v {
 			return "true"
@@ -205,7 +269,9 @@ func factsServe(t *T) (string, error) {
 	sb.WriteString("Definition session_loop_ends_with_reader : bool := " + b(loopEnds) + ".\n")
 	sb.WriteString("Definition session_done_closes_conn : bool := " + b(doneCloses) + ".\n")
 	sb.WriteString("(* user.removeState cannot return before the state has left user.states (after which statesWG.Done is deferred) *)\n")
-	sb.WriteString("Definition remove_state_cannot_abort_early : bool := " + b(removeOK) + ".\n\n")
+	sb.WriteString("Definition remove_state_cannot_abort_early : bool := " + b(removeOK) + ".\n")
+	sb.WriteString("(* the goroutine writing IDLE responses takes them until the channel is closed, also after a failed write *)\n")
+	sb.WriteString("Definition idle_writer_drains_until_closed : bool := " + b(idleDrains) + ".\n\n")
 	sb.WriteString("(* Close closes every accepted connection before it turns to the backend *)\n")
 	sb.WriteString("Definition close_closes_accepted_conns : bool :=\n  andb serve_defers_conn_close_on_return (andb serve_returns_on_done (andb close_stops_serving_before_backend session_loop_ends_with_reader)).\n")
 	return sb.String(), nil
